@@ -43,7 +43,7 @@ func init() {
 		NotDecided: "everything algebraic in the statement: that any t shares recover the same secret / group key / group signature, and that a foreign share, wrong index or different message never verifies " +
 			"(field arithmetic inside the herumi C library); that strconv.Itoa/SetDecString are injective renderings (library semantics, trusted).",
 		Run: c08,
-		Mutants: []Mutant{
+		Mutants: append([]Mutant{
 			{ID: "C08-S1-recover-secret-contiguous-counter", File: "tbls/herumi.go", Expect: "S1",
 				Old: "\tfor idx, key := range shares {\n\t\tvar kpk bls.SecretKey\n\t\tif err := kpk.Deserialize(key[:]); err != nil {\n\t\t\treturn PrivateKey{}, errors.Wrap(\n\t\t\t\terr,\n\t\t\t\t\"unmarshal key with into Herumi secret key\",",
 				New: "\tfor idx := 1; idx <= len(shares); idx++ {\n\t\tkey := shares[idx]\n\n\t\tvar kpk bls.SecretKey\n\t\tif err := kpk.Deserialize(key[:]); err != nil {\n\t\t\treturn PrivateKey{}, errors.Wrap(\n\t\t\t\terr,\n\t\t\t\t\"unmarshal key with into Herumi secret key\","},
@@ -160,6 +160,14 @@ func init() {
 			{ID: "C08-S1-aggregate-counts-down-from-len", File: c08File, Expect: "S1|ThresholdAggregate every input share is used",
 				Old: "\tfor idx, rawSignature := range partialSignaturesByIndex {\n\t\tvar signature bls.Sign\n",
 				New: "\tfor idx := len(partialSignaturesByIndex); idx >= 1; idx-- {\n\t\trawSignature, ok := partialSignaturesByIndex[idx]\n\t\tif !ok {\n\t\t\tcontinue\n\t\t}\n\n\t\tvar signature bls.Sign\n"},
+			// ---- S3: the library is initialised before every entry point that calls into it
+			{ID: "C08-S3-init-call-dropped", File: c08File, Expect: "S3|library initialised before",
+				Old: "\t\tif err := bls.Init(bls.BLS12_381); err != nil {\n\t\t\tpanic(errors.Wrap(err, \"initialize Herumi BLS\"))\n\t\t}\n\n", New: ""},
+			{ID: "C08-S3-init-func-never-run", File: c08File, Expect: "S3|library initialised before",
+				Old: "func init() {\n\tinitOnce.Do(func() {", New: "func initHerumi() {\n\tinitOnce.Do(func() {"},
+			{ID: "C08-S3-lazy-init-missing-in-sign", File: c08File, Expect: "S3|library initialised before tbls.Herumi.Sign",
+				Old: "func init() {\n\tinitOnce.Do(func() {", New: "func (Herumi) ready() {\n\tinitOnce.Do(func() {",
+				More: c08LazyInitExcept("Sign")},
 			// ---- the key verified is the key given: a cache of decompressed keys serves the entry of its own key
 			{ID: "C08-S2-verify-cache-never-evicts-index", File: c08File, Expect: "S2|Herumi.Verify public key operand",
 				Old: c08HerumiDecl, New: c08HerumiDecl + strings.Replace(c08CacheText, "\tdelete(c.index, c.raws[c.next])\n", "", 1),
@@ -171,8 +179,33 @@ func init() {
 			{ID: "C08-S2-aggverify-memo-keyed-by-prefix", File: c08File, Expect: "S2|Herumi.VerifyAggregate public key operand",
 				Old: c08HerumiDecl, New: c08HerumiDecl + c08PrefixMemoText,
 				More: [][2]string{{c08AggDeser, "\t\tpubKey, err := decompress(share)\n\t\tif err != nil {\n\t\t\treturn err\n\t\t}\n"}}},
-		},
+		}, c08n4Mutants()...),
 	})
+}
+
+// c08LazyInitExcept: every method of Herumi except `skip` starts with h.ready() (mutant text).
+func c08LazyInitExcept(skip string) [][2]string {
+	var out [][2]string
+	for _, m := range []string{
+		"GenerateInsecureKey(t *testing.T, random io.Reader) (PrivateKey, error) {\n",
+		"GenerateSecretKey() (PrivateKey, error) {\n",
+		"SecretToPublicKey(secret PrivateKey) (PublicKey, error) {\n",
+		"ThresholdSplitInsecure(t *testing.T, secret PrivateKey, total uint, threshold uint, random io.Reader) (map[int]PrivateKey, error) {\n",
+		"ThresholdSplit(secret PrivateKey, total uint, threshold uint) (map[int]PrivateKey, error) {\n",
+		"RecoverSecret(shares map[int]PrivateKey, _, _ uint) (PrivateKey, error) {\n",
+		"RecoverPubkey(shares map[int]PublicKey) (PublicKey, error) {\n",
+		"Aggregate(signs []Signature) (Signature, error) {\n",
+		"ThresholdAggregate(partialSignaturesByIndex map[int]Signature) (Signature, error) {\n",
+		"Verify(compressedPublicKey PublicKey, data []byte, rawSignature Signature) error {\n",
+		"Sign(privateKey PrivateKey, data []byte) (Signature, error) {\n",
+		"VerifyAggregate(publicShares []PublicKey, signature Signature, data []byte) error {\n",
+	} {
+		if strings.HasPrefix(m, skip+"(") {
+			continue
+		}
+		out = append(out, [2]string{"func (Herumi) " + m, "func (h Herumi) " + m + "\th.ready()\n\n"})
+	}
+	return out
 }
 
 func c08(c *rt.Ctx) {
@@ -196,6 +229,9 @@ func c08(c *rt.Ctx) {
 		c08Forward(c, "Verify")
 		c08Forward(c, "VerifyAggregate")
 		c08ZeroSig(c)
+	})
+	c.Rule("S3", 10, func() {
+		c08LibInit(c)
 	})
 }
 
@@ -1788,6 +1824,12 @@ func c08EmptyList(v ssa.Value) bool {
 	case *ssa.MakeSlice:
 		n, ok := an.ConstInt(x.Len)
 		return ok && n == 0
+	case *ssa.Slice:
+		// buf[:0]: a reused buffer truncated to length 0
+		if x.High != nil {
+			n, ok := an.ConstInt(x.High)
+			return ok && n == 0
+		}
 	}
 	return false
 }
@@ -1866,6 +1908,9 @@ type c08Fill struct {
 	Skips []c08Skip      // append form: iteration paths that leave the list unchanged
 	Odd   string         // a back edge / use that is not understood (=> undecided)
 	Start bool           // append form: the list is empty when the loop starts
+	// location form (c08n4_loc.go): the list lives in a struct field, PutStore is the store of append(list, x)
+	Loc      bool
+	PutStore ssa.Instruction
 }
 
 // c08FillOf recognises how list value v (anchor function fn) is filled.
@@ -2234,6 +2279,25 @@ func c08Recover(c *rt.Ctx, name, typ string, encs *[]c08EncSite) {
 		return
 	}
 	fv, fi := c08FillOf(lfn, vals.V), c08FillOf(lfn, ids.V)
+	// lists kept in struct fields (parameter object, pooled scratch buffer, package state)
+	own := pre + "lists hold only the shares of this call"
+	for _, slot := range []struct {
+		fl **c08Fill
+		v  ssa.Value
+	}{{&fv, vals.V}, {&fi, ids.V}} {
+		if *slot.fl != nil {
+			continue
+		}
+		lf, st, why := c08LocFill(lfn, slot.v)
+		if lf == nil {
+			continue
+		}
+		*slot.fl = lf
+		if ld, isLoad := slot.v.(*ssa.UnOp); isLoad && lf.Loop != nil && st != "bad" && (lf.Loop.Body[ld.Block()] || !lf.Loop.Header.Dominates(ld.Block())) {
+			lf.Odd, st, why = "the list is read before the filling loop is over", "unsure", "the list is read before the filling loop is over"
+		}
+		c08Record(c, own, posOf(slot.v.(ssa.Instruction)), st, why)
+	}
 	if fv == nil || fi == nil || fv.Kind != fi.Kind || fv.Loop == nil || fi.Loop == nil || fv.Loop.Header != fi.Loop.Header {
 		c.Unsure(pair, rec.Pos(), "the two lists handed to Recover are not filled by one loop")
 		return
@@ -2310,6 +2374,16 @@ func c08Recover(c *rt.Ctx, name, typ string, encs *[]c08EncSite) {
 		}
 		lone(fv.Puts, fi.Skips)
 		lone(fi.Puts, fv.Skips)
+		switch {
+		case fv.Loc && fi.Loc:
+			for _, ab := range [][2]ssa.Instruction{{fv.PutStore, fi.PutStore}, {fi.PutStore, fv.PutStore}} {
+				if c08LonePut(l, ab[0], ab[1]) {
+					c.Bad(pair, ab[0].Pos(), "an iteration can extend one of the two lists without the other: every later identifier is paired with the wrong share")
+				}
+			}
+		case fv.Loc != fi.Loc:
+			c.Unsure(pair, rec.Pos(), "one list is kept in a struct field, the other in a local: cannot pair their appends")
+		}
 		for _, pv := range fv.Puts {
 			for _, pi := range fi.Puts {
 				if c08KeysCompatible(pv.Key, pi.Key) {
